@@ -14,7 +14,7 @@ from . import ModuleReturnValue, ExtensionModule
 from .. import build
 from .. import mlog
 from ..dependencies import DependencyMethods, find_external_dependency, Dependency, ExternalLibrary, InternalDependency
-from ..mesonlib import MesonException, File, FileMode, version_compare, Popen_safe
+from ..mesonlib import MesonException, File, FileMode, version_compare, Popen_safe, replace_if_different
 from ..interpreter import extract_required_kwarg
 from ..interpreter.type_checking import DEPENDENCY_METHOD_KW, INSTALL_DIR_KW, INSTALL_KW, REQUIRED_KW, NoneType
 from ..interpreterbase import ContainerTypeInfo, FeatureDeprecated, KwargInfo, noPosargs, FeatureNew, typed_kwargs, typed_pos_args
@@ -807,7 +807,8 @@ class QtBaseModule(ExtensionModule):
         if not os.path.isdir(state.environment.build_dir):
             os.mkdir(state.environment.build_dir)
 
-        with open(fileout_abs, 'w', encoding='utf-8') as fd:
+        fileout_tmp = fileout_abs + '~'
+        with open(fileout_tmp, 'w', encoding='utf-8') as fd:
 
             def __gen_import(import_type: str, importlist: T.List[str]) -> None:
                 for import_string in importlist:
@@ -850,6 +851,8 @@ class QtBaseModule(ExtensionModule):
 
             if designer_supported:
                 fd.write('designersupported\n')
+        # Do not touch an unchanged qmldir: it is an input of the resource compilation
+        replace_if_different(fileout_abs, fileout_tmp)
         return fileout
 
     def _moc_json_collect(self, state: ModuleState, kwargs: MocJsonCollectKwArgs) -> build.CustomTarget:
